@@ -114,13 +114,16 @@ CHECKS = {
     "C09": {
         "groups": [{
             "pkg": BS, "funcs": ["VerifC09Isolation"],
-            "params": {"quick": {"STEPS": 3}, "thorough": {"STEPS": 4}},
-            "covers": {"VerifC09Isolation": ["write-on-a", "replicate-on-a", "load-on-a"]},
+            "params": {"quick": {"STEPS": 2, "P": 1}, "thorough": {"STEPS": 3, "P": 2}},
+            "max_paths": {"quick": 60000, "thorough": 800000},
+            "timeout": {"quick": "10m", "thorough": "90m"},
+            "covers": {"VerifC09Isolation": ["write-on-a", "replicate-on-a", "load-on-a", "interleaved-writes"]},
         }],
         "assumptions": [
             "two databases opened by one process: two real BaseStores initialised by InitBaseStore on ONE shared event bus, one pubsub (topics per address, each with a peer so that publications are not suppressed) and one direct channel; replication enabled",
             "a sequence of STEPS actions on database A (local write with symbolic payload; replication of a head written by a remote process; load), run to quiescence after each",
             "oracle: nothing published on B's topic or sent on the direct channel; B's log, progress and maximum unchanged; every store event observed on the bus carries A's address",
+            "then a write to B followed by a write to A under every thread schedule with at most P preemptions (switch or stall) at visible operations; every message published on a topic must name that topic's database and carry only its heads",
         ],
         "outside": ["more than two databases / different store types (the listeners are in BaseStore, common to all types)", "schedules other than run-to-block FIFO", "the instance-level direct-channel handler of baseorbitdb (routes by the address in the message)"],
     },
